@@ -103,7 +103,12 @@ def run_case(P):
             i, step, common.short(got), common.short(exp)), input_class="received-not-prefix-of-sent")
     snap = rec.stable_snapshot
     settled = all(s == "quiescent" for s in rec.settle)
-    if not settled:
+    if any(s == "reconnect-loop" for s in rec.settle) and not bad:
+        # no fault is injected during stabilisation: a session that keeps losing and re-making its server
+        # connection there is raising on what it receives, and nothing more will ever be delivered
+        res.violate("complete", "fault-free stabilisation kept reconnecting (%r): the exchange never completes; errors %r" % (
+            rec.settle, rec.errors[:2]), input_class="reconnect-loop-without-faults")
+    elif not settled:
         res.inconclusive = True
     elif not bad and not P.get("closes"):
         for i in range(2):
